@@ -29,17 +29,6 @@ open Lena Lena.Val
 
 /-! ## every object is in the state of its own history, and the history is a function of the cone -/
 
-/-- the contexts that get past a list of consecutive elements -/
-def pastL (n : Nat) : List Tree → List Ctx → List Ctx
-  | [], F => F
-  | t :: ts, F => pastL n ts (pastT n t F)
-
-/-- the history of the node below the enclosing containers `k`, when the history of the outermost one is `F` -/
-def histOfCone (n : Nat) : List ConeStep → List Ctx → List Ctx
-  | [], F => F
-  | .seq earlier :: k, F => histOfCone n k (Val.empty n :: pastL n earlier F)
-  | .split :: k, F => histOfCone n k (Val.empty n :: F)
-
 theorem finalL_getElem (n : Nat) : ∀ (ts : List Tree) (F : List Ctx) (i : Nat),
     (finalL n ts F)[i]? = (ts[i]?).map fun c => final n c (Val.empty n :: pastL n (ts.take i) F)
   | [], _, _ => by simp [finalL]
@@ -335,6 +324,31 @@ everything that is below all of them -/
 theorem interN_is_meet (n : Nat) (xs : List Ctx) (hne : xs ≠ []) :
     (∀ x ∈ xs, leL (interN n xs) x) ∧ ∀ y, (∀ x ∈ xs, leL y x) → leL y (interN n xs) :=
   ⟨fun x hx => interN_le n xs x hx, fun y hy => interN_glb n xs y hne hy⟩
+
+/-- a `Split` branch without static context (a bare fill/compute or fill/request element, which `Split` keeps as
+it is) is transparent: it does not take part in the intersection ("not intersecting the others with {}") -/
+theorem split_transparent_branch (n : Nat) (b : Tree) (bs : List Tree) (c : Ctx) (hb : b.hasGet = false) :
+    fold n (.split (b :: bs)) c = fold n (.split bs) c := by
+  simp [fold, foldB, hb]
+
+/-- **re-propagation is idempotent**: delivering to any sub-program the context it was delivered last leaves
+every object as it is (an enclosing sequence, or the temporary sequences that `Cache.alter_sequence` builds,
+may run a pass again) -/
+theorem redelivery_idempotent (n : Nat) (t : Tree) (F : List Ctx) (c : Ctx) (hH : Hist n F c)
+    (hne : nonEmpty c = true) :
+    (setCtx n (setCtx n (final n t F) c).1 c).1 = (setCtx n (final n t F) c).1 := by
+  have h1 := (setCtx_final n t F c hH hne).1
+  have hH' : Hist n (F ++ [c]) c := by
+    refine ⟨?_, hH.2⟩
+    intro x hx
+    simp only [List.mem_append, List.mem_singleton] at hx
+    rcases hx with hx | hx
+    · exact hH.1 x hx
+    · subst hx; exact ⟨leL_refl x, hH.2⟩
+  have h2 := (setCtx_final n t (F ++ [c]) c hH' hne).1
+  rw [h1, h2]
+  have := final_dup n t F [] c
+  simpa using this
 
 /-- **an unresolved formatting key surfaces**: if the fold of the program meets a formatting field whose key
 `k` cannot be resolved in its prefix, `_get_context()` of the sequence raises `LenaKeyError` carrying `k` -/
@@ -670,7 +684,7 @@ example : getCtx 2 (build 2 ex2) = .error 1 := rfl
 -- hypotheses of `no_leak` and `no_leak_without_consumer`
 example : ∃ x, fold 2 ex1 (Val.empty 2) = .ok x := ⟨_, rfl⟩
 example : (Tree.seq .sequence [.leaf (.set 0 [] (.const (.int 1))), .leaf .store, .leaf .data]).noConsumer = true := rfl
-example : run 2 ⟨0, 1, 0, 1⟩ [] (build 2 (.seq .sequence [.leaf (.set 1 [] (.const (.int 1))), .leaf .ucfs]))
+example : run 2 ⟨0, 1, 0, 1, 0, 1⟩ [] (build 2 (.seq .sequence [.leaf (.set 1 [] (.const (.int 1))), .leaf .ucfs]))
     [(5, [none, none])] = some [(5, [none, some (.leaf (.int 1))])] := rfl
 -- hypothesis of `run_values_independent`: a state with a consumer and a run-time mutator is linear
 example : (build 2 (.seq .sequence [.leaf (.set 1 [] (.const (.int 1))), .leaf .ucfs, .leaf (.mut 0 [] (.int 5))])).linear = true := rfl
